@@ -147,6 +147,50 @@ pub fn run(tier: Tier) -> i32 {
         });
         ctx.scope_done("short-writing-sinks", jobs.len() as u64, t2, "outputs larger than the 4096-byte window into sinks accepting 1 / 64 / 1000 bytes per call");
     }
+    // flush() in the middle: io::Write::flush may hand pending bytes to the sink or not, but what the sink holds stays a
+    // prefix and the final output is unchanged - one flush at every input offset, and a flush after every 7-byte piece
+    {
+        let t3 = Instant::now();
+        let mut jobs: Vec<(usize, usize)> = Vec::new();
+        for (ii, inp) in ins.iter().enumerate() {
+            if let Mode::Prefix { full, .. } = &inp.mode {
+                if (full.len() > 4096 || inp.label.starts_with("mix+size [Header]")) && inp.bytes.len() < 400 {
+                    for k in 0..=inp.bytes.len() {
+                        jobs.push((ii, k));
+                    }
+                    jobs.push((ii, usize::MAX));
+                }
+            }
+        }
+        par_for(jobs.len() as u64, |i| {
+            let (ii, k) = jobs[i as usize];
+            let inp = &ins[ii];
+            let full = match &inp.mode {
+                Mode::Prefix { full, .. } => full,
+                _ => unreachable!(),
+            };
+            let ops: Vec<SOp> = if k == usize::MAX {
+                let mut v = Vec::new();
+                for c in inp.bytes.chunks(7) {
+                    v.push(SOp::WriteAll(Hex(c.to_vec())));
+                    v.push(SOp::Flush);
+                }
+                v.push(SOp::Finish);
+                v
+            } else {
+                vec![SOp::WriteAll(Hex(inp.bytes[..k].to_vec())), SOp::Flush, SOp::GetOutput, SOp::WriteAll(Hex(inp.bytes[k..].to_vec())), SOp::Flush, SOp::Finish]
+            };
+            let case = Case::Stream { opts: inp.opts, sk: Sk::default(), ops };
+            let o = run_case(&case);
+            ctx.eval(1);
+            ctx.nontriv(1);
+            let monotone = o.ops.windows(2).all(|w| w[0].sink_len <= w[1].sink_len);
+            if !(o.ops.iter().all(|r| r.v.is_ok()) && o.out.0 == *full && monotone) {
+                ctx.violation(&case, &format!("{}: {} then finish: every call Ok and the sink ends up with exactly the complete output ({} bytes)", inp.label, if k == usize::MAX { "flush() after every 7-byte write".to_string() } else { format!("write {} bytes, flush(), write the remaining {}, flush()", k, inp.bytes.len() - k) }, full.len()), &o, None);
+            }
+        });
+        ctx.scope_done("flush-at-every-offset", jobs.len() as u64, t3, "one flush() at every input offset of the window-wrapping streams");
+    }
     let a = agg.lock().unwrap();
     ctx.set_extra("finish_probes", json!(a.2));
     ctx.set_extra("max_lag_seen_output_bytes", json!(a.3));
